@@ -301,6 +301,7 @@ CAMPAIGNS = {
         {"world": "W2", "schedules": ("dev", 2), "depth": 1, "modes": {1: "full"}},
         {"world": "W3", "schedules": ("dev", 1, ["UsagePattern", "Job", "Server"]), "depth": 1, "modes": {1: "full"}},
         {"world": "W1c", "schedules": ("rev", 0), "depth": 1, "modes": {1: "full"}},
+        {"world": "W4", "schedules": ("default", 0), "depth": 1, "modes": {1: "full"}},
         {"world": "W1", "schedules": ("rev", 0), "depth": 1, "modes": {1: "pairs"}},
         {"world": "W2", "schedules": ("rev", 0), "depth": 1, "modes": {1: "pairs"}},
         {"world": "W3", "schedules": ("default", 0), "depth": 1, "modes": {1: "pairs"}},
